@@ -169,6 +169,9 @@ func (c *Ctx) ReaderReturnsUnaltered(ob *core.Obligation, r *Roles) {
 						if f := postingFieldOf(args[2]); f == r.SenderAmt {
 							okWrite = true
 						}
+						if isPendingSum(fn, args[2], r) {
+							okWrite = true // the pending draws added up in a local
+						}
 						if call, ok := core.Strip(args[2]).(*ssa.Call); ok && call.Call.StaticCallee() != nil && c.P.InModule(call.Call.StaticCallee()) {
 							okWrite = true // a helper of the module that adds up the pending draws
 						}
@@ -189,6 +192,28 @@ func (c *Ctx) ReaderReturnsUnaltered(ob *core.Obligation, r *Roles) {
 	if n == 0 {
 		ob.Unknown("reader-unaltered:none", "-", "no balance reader that scans the pending senders found")
 	}
+}
+
+// isPendingSum: v is a local number every in-place operation on which adds a pending sender
+// amount to it.
+func isPendingSum(fn *ssa.Function, v ssa.Value, r *Roles) bool {
+	key := cellKey(v)
+	n := 0
+	for _, ci := range core.Calls(fn) {
+		tn, m := core.BigMethod(ci.Common())
+		if tn == "" || bigReadersOnly[m] {
+			continue
+		}
+		args := core.CallArgs(ci.Common())
+		if cellKey(args[0]) != key {
+			continue
+		}
+		if m != "Add" || cellKey(args[1]) != key || postingFieldOf(args[2]) != r.SenderAmt {
+			return false
+		}
+		n++
+	}
+	return n > 0
 }
 
 func isReaderCall(v ssa.Value, r *Roles) bool {
